@@ -215,6 +215,7 @@ func conc(pkg *packages.Package, file *ast.File, relName string, r *report) bool
 		return fmt.Sprintf("%s:%d:%s", relName, pkg.Fset.Position(n.Pos()).Line, what)
 	}
 	nGo := 0
+	inSelect := map[ast.Node]bool{}
 	astutil.Apply(file, func(c *astutil.Cursor) bool {
 		switch n := c.Node().(type) {
 		case *ast.SelectorExpr:
@@ -270,12 +271,88 @@ func conc(pkg *packages.Package, file *ast.File, relName string, r *report) bool
 				changed = true
 			}
 		case *ast.SelectStmt:
-			r.Uninstrumented = append(r.Uninstrumented, site(n, "select"))
+			// the communication of a select case must stay a plain channel
+			// operation; a select with a default never blocks and is fine as
+			// it is, a blocking one is outside what the simulator owns
+			hasDefault := false
+			for _, cc := range n.Body.List {
+				if cl, ok := cc.(*ast.CommClause); ok {
+					if cl.Comm == nil {
+						hasDefault = true
+					} else {
+						inSelect[cl.Comm] = true
+						switch cs := cl.Comm.(type) {
+						case *ast.ExprStmt:
+							inSelect[cs.X] = true
+						case *ast.AssignStmt:
+							for _, e := range cs.Rhs {
+								inSelect[e] = true
+							}
+						}
+					}
+				}
+			}
+			if hasDefault {
+				r.Sites = append(r.Sites, site(n, "select-nonblocking(left as is)"))
+			} else {
+				r.Uninstrumented = append(r.Uninstrumented, site(n, "select-blocking"))
+			}
 		case *ast.SendStmt:
-			r.Uninstrumented = append(r.Uninstrumented, site(n, "chan-send"))
+			if inSelect[n] {
+				return true
+			}
+			r.Sites = append(r.Sites, site(n, "chan-send"))
+			c.Replace(&ast.ExprStmt{X: &ast.CallExpr{Fun: sel("verifsim", "Send"), Args: []ast.Expr{n.Chan, n.Value}}})
+			changed = true
+		case *ast.AssignStmt:
+			// v, ok := <-ch
+			if len(n.Lhs) == 2 && len(n.Rhs) == 1 && !inSelect[n] {
+				if u, ok := n.Rhs[0].(*ast.UnaryExpr); ok && u.Op == token.ARROW {
+					r.Sites = append(r.Sites, site(n, "chan-recv2"))
+					n.Rhs[0] = &ast.CallExpr{Fun: sel("verifsim", "Recv2"), Args: []ast.Expr{u.X}}
+					changed = true
+				}
+			}
 		case *ast.UnaryExpr:
-			if n.Op == token.ARROW {
-				r.Uninstrumented = append(r.Uninstrumented, site(n, "chan-recv"))
+			if n.Op == token.ARROW && !inSelect[n] {
+				r.Sites = append(r.Sites, site(n, "chan-recv"))
+				c.Replace(&ast.CallExpr{Fun: sel("verifsim", "Recv"), Args: []ast.Expr{n.X}})
+				changed = true
+			}
+		case *ast.CallExpr:
+			if id, ok := n.Fun.(*ast.Ident); ok && id.Name == "close" && len(n.Args) == 1 {
+				if _, isBuiltin := pkg.TypesInfo.Uses[id].(*types.Builtin); isBuiltin {
+					r.Sites = append(r.Sites, site(n, "chan-close"))
+					n.Fun = sel("verifsim", "Close")
+					changed = true
+				}
+			}
+		case *ast.RangeStmt:
+			if tv, ok := pkg.TypesInfo.Types[n.X]; ok {
+				if _, isChan := tv.Type.Underlying().(*types.Chan); isChan {
+					// for v := range ch { body }  =>  for { v, ok := Recv2(ch); if !ok { break }; body }
+					nGo++
+					okName := fmt.Sprintf("vsOk%d_", nGo)
+					var lhs ast.Expr = ast.NewIdent("_")
+					tok := token.DEFINE
+					if n.Key != nil {
+						lhs = n.Key
+						if n.Tok == token.ASSIGN {
+							// v already declared: declare ok separately
+							tok = token.ASSIGN
+						}
+					}
+					var pre []ast.Stmt
+					if tok == token.ASSIGN {
+						pre = append(pre, &ast.DeclStmt{Decl: &ast.GenDecl{Tok: token.VAR, Specs: []ast.Spec{&ast.ValueSpec{Names: []*ast.Ident{ast.NewIdent(okName)}, Type: ast.NewIdent("bool")}}}})
+					}
+					recv := &ast.AssignStmt{Lhs: []ast.Expr{lhs, ast.NewIdent(okName)}, Tok: tok, Rhs: []ast.Expr{&ast.CallExpr{Fun: sel("verifsim", "Recv2"), Args: []ast.Expr{n.X}}}}
+					brk := &ast.IfStmt{Cond: &ast.UnaryExpr{Op: token.NOT, X: ast.NewIdent(okName)}, Body: &ast.BlockStmt{List: []ast.Stmt{&ast.BranchStmt{Tok: token.BREAK}}}}
+					body := append(append(pre, recv, brk), n.Body.List...)
+					r.Sites = append(r.Sites, site(n, "chan-range"))
+					c.Replace(&ast.ForStmt{Body: &ast.BlockStmt{List: body}})
+					changed = true
+				}
 			}
 		}
 		return true
